@@ -6,6 +6,7 @@ from typing import Dict, List, Optional, Tuple, Union
 
 from ply import lex, yacc
 
+from simple_ddl_parser import _verif
 from simple_ddl_parser.exception import SimpleDDLParserException
 from simple_ddl_parser.output.core import Output, dump_data_to_file
 from simple_ddl_parser.output.dialects import dialect_by_name
@@ -89,7 +90,13 @@ class Parser:
         set_logging_config(log_level, log_file)
         log = logging.getLogger()
         self.lexer = lex.lex(object=self, debug=False, debuglog=log)
+        if _verif.ENABLED:
+            _verif.emit("BuildLexer", obj=id(self))
+            _verif.yield_point("lexer_built", self)
         self.yacc = yacc.yacc(module=self, debug=False, debuglog=log)
+        if _verif.ENABLED:
+            _verif.emit("BuildParser", obj=id(self))
+            _verif.yield_point("parser_built", self)
         self.columns_closed = False
         self.statement = None
         self.block_comments = []
@@ -264,6 +271,14 @@ class Parser:
         self.statement = None
         self.block_comments = []
         self.comments = []
+        if _verif.ENABLED:
+            _verif.emit(
+                "StartRun",
+                obj=id(self),
+                n_comments=len(self.comments),
+                n_block=len(self.block_comments),
+                pending=self.statement,
+            )
         data = self.pre_process_data(self.data)
         regex_n = r"((?!\'[\w]*[\\']*[\w]*)\\n(?![\w]*[\\']*[\w]*\'))"
         data = data.replace("\\t", "")
@@ -278,6 +293,20 @@ class Parser:
 
         for num, self.line in enumerate(lines):
             self.process_line(num != len(lines) - 1)
+            if _verif.ENABLED:
+                _verif.emit(
+                    "Line",
+                    obj=id(self),
+                    raw=lines[num],
+                    not_last=num != len(lines) - 1,
+                    pending=self.statement,
+                    mlc=self.multi_line_comment,
+                    set_line=self.set_line,
+                    set_was=self.set_was_in_line,
+                    n_block=len(self.block_comments),
+                    comments=list(self.comments),
+                    n_out=len(self.tables),
+                )
         if self.comments:
             self.tables.append({"comments": self.comments})
         return self.tables
@@ -319,7 +348,18 @@ class Parser:
             self.statement = None
 
     def parse_statement(self) -> None:
+        if _verif.ENABLED:
+            _verif.yield_point("parse_stmt", self)
         _parse_result = self.yacc.parse(self.statement, lexer=self.lexer)
+        if _verif.ENABLED:
+            _verif.emit(
+                "ParseStmt",
+                obj=id(self),
+                stmt=self.statement,
+                result=repr(_parse_result),
+                glexer_is_mine=lex.lexer is self.lexer,
+                gparse_is_mine=getattr(yacc.parse, "__self__", None) is self.yacc,
+            )
         if _parse_result:
             self.tables.append(_parse_result)
 
@@ -385,4 +425,6 @@ class Parser:
                     dump_data_to_file(table["table_name"], dump_path, table)
         if json_dump:
             self.tables = json.dumps(self.tables)
+        if _verif.ENABLED:
+            _verif.emit("FinishRun", obj=id(self), result=repr(self.tables))
         return self.tables
